@@ -85,6 +85,12 @@ CLAIMED = {
             "caps 0..12; every declared array of every returned object is checked, and hals_nnls / fista / active_set_nnls / "
             "make_svd_non_negative are wrapped (identity re-binding) so their returns are checked while those runs execute.",
             "No slack: -1e-300 or NaN is a violation. PARAFAC2 mode 1 exempt as documented.", "DESIGN.md §2 C10"),
+    "C11": ("runtime feasibility monitor on the factors returned by constrained_parafac / ConstrainedCP; rejection monitor for double constraints",
+            "Seeded configurations over all 8 hard constraint kinds x scalar / list / list-with-holes / dict specifications over subsets of "
+            "modes, mixed kinds on disjoint modes, signed and non-negative data, SVD/random/user inits and outer/inner budgets "
+            "{0,1,3,10}x{1,3,10}; every constrained, updated mode of every returned CP tensor is tested against the operator's "
+            "documented set; requests constraining a mode twice must raise ValueError. Sampled, orders 3-4.",
+            "Order relations with no slack; sums/norms with slack scaled to the data magnitude.", "DESIGN.md §2 C11"),
 }
 
 PENDING_REASON = "check not built yet in this session; see DESIGN.md §2 for the planned monitor"
